@@ -48,3 +48,14 @@ Print Assumptions C06_eof_is_permanent.
 Print Assumptions C06_failed_is_final.
 Print Assumptions C06_loss_is_error.
 Print Assumptions C06_loss_under_implicit_acquire.
+
+(* ---- NETCONF RPCs: a transport error forwarded by the read loop fails the RPC in flight at once
+   (it wins over the timer and over a reply), the id still advances ---- *)
+From Scrapli Require Import Netconf NcSession NcSessionLemmas NcSegLemmas.
+From Scrapli Require NcExtraLemmas.
+
+Theorem C06_rpc_error : forall s o seg p, op_payload o = BOk p -> n_panic s = false ->
+  existsb NcExtraLemmas.is_err seg = true -> snd (do_rpc s o seg) = RError (Z.of_N (n_next_id s)).
+Proof. exact NcExtraLemmas.rpc_error_wins. Qed.
+
+Print Assumptions C06_rpc_error.
